@@ -816,3 +816,158 @@ def render_abstract(A, start=datetime(2024, 1, 1), length="+1w"):
         if t["parent"] == 0:
             rtask(i, "")
     return "\n".join(L) + "\n"
+
+
+# ======================================================================================
+# Meaning-preserving transformations (C14 week shifts, C15 spellings) on a Proj
+# ======================================================================================
+import copy as _copy
+
+
+def clone(p):
+    return _copy.deepcopy(p)
+
+
+def shifted(p, weeks):
+    """Every date of the project moved by the same whole number of weeks."""
+    q = clone(p)
+    d = timedelta(weeks=weeks)
+
+    def sh(x):
+        return x + d if x is not None else None
+    q.start = sh(q.start)
+    q.vac = [(sh(a), sh(b)) for a, b in q.vac]
+    q.gleaves = [(sh(a), sh(b)) for a, b in q.gleaves]
+    for r in q.res:
+        r.leaves = [(sh(a), sh(b)) for a, b in r.leaves]
+        r.vacations = [(sh(a), sh(b)) for a, b in r.vacations]
+        r.bookings = [(sh(a), s) for a, s in r.bookings]
+    for t in q.tasks:
+        t.start = sh(t.start)
+        t.end = sh(t.end)
+        for ov in t.scen.values():
+            for k in ("start", "end"):
+                if k in ov:
+                    ov[k] = sh(ov[k])
+    return q
+
+
+NASTY = ["rev", "a", "ab", "abc", "task", "t", "t1", "t10", "x_rev", "Rev2", "end_", "start_", "res", "r", "r1", "r10", "p", "plan",
+         "milestone_", "depends_", "m", "mm", "_a", "A", "aA", "z9", "shift_", "proj"]
+
+
+def renamed(p, rng):
+    """Consistent renaming of task / resource / shift identifiers (names that are prefixes of each other,
+    contain 'rev', differ only in case ...)."""
+    q = clone(p)
+    pool = list(NASTY)
+    rng.shuffle(pool)
+    used = set()
+
+    def fresh(siblings_used):
+        for n in pool:
+            if n not in siblings_used:
+                return n
+        k = 0
+        while "n%d" % k in siblings_used:
+            k += 1
+        return "n%d" % k
+    # resources and shifts share one global id space (resources are looked up by short id)
+    glob = set()
+    for r in q.res:
+        n = fresh(glob)
+        glob.add(n)
+        r.name = n
+    newshifts = {}
+    for r in q.res:
+        if r.shift and r.shift not in newshifts:
+            n = fresh(glob)
+            glob.add(n)
+            newshifts[r.shift] = n
+    q.shifts = {newshifts.get(k, k): v for k, v in q.shifts.items()}
+    for r in q.res:
+        if r.shift:
+            r.shift = newshifts[r.shift]
+    # tasks: unique among siblings is enough, but keep them globally unique to allow absolute references by first id
+    tglob = set()
+    for t in q.tasks:
+        n = fresh(tglob)
+        tglob.add(n)
+        t.name = n
+    return q
+
+
+def to_precedes(p, rng):
+    """Express plain finish-to-start edges between leaves as 'precedes' on the predecessor."""
+    q = clone(p)
+    for t in q.tasks:
+        keep = []
+        for d in t.deps:
+            if not d[1] and not d[2] and not t.kids and not d[0].kids and rng.random() < 0.7:
+                d[0].precedes.append(t)
+            else:
+                keep.append(d)
+        t.deps = keep
+    return q
+
+
+def swap_shift_inline(p):
+    """Resources with inline hours get a shift instead and vice versa."""
+    q = clone(p)
+    k = 0
+    for r in q.res:
+        if r.shift:
+            r.hours = q.shifts[r.shift]
+            r.shift = None
+        elif r.hours is not None and r.hours:
+            name = "sh_%d" % k
+            k += 1
+            q.shifts[name] = r.hours
+            r.shift = name
+            r.hours = None
+    q.shifts = {n: h for n, h in q.shifts.items() if any(r.shift == n for r in q.res)}
+    return q
+
+
+def with_comments(text, rng):
+    out = []
+    for line in text.splitlines():
+        x = rng.random()
+        if x < 0.15:
+            out.append("# shell comment with task t0 { effort 1h } inside")
+        elif x < 0.3:
+            out.append("// c++ comment depends !t0")
+        elif x < 0.4:
+            out.append("/* block comment\n   spanning lines: resource r0 \"x\" {}\n*/")
+        elif x < 0.5:
+            out.append("")
+        ind = "   " * rng.randint(0, 2)
+        if line.startswith("project") or "timeformat" in line:
+            out.append(line)
+        else:
+            out.append(ind + line.replace(" {", "   {" if rng.random() < 0.3 else " {") + ("  # trailing" if rng.random() < 0.2 else ""))
+    return "\n".join(out) + "\n"
+
+
+def with_macros(text, rng):
+    """Move whole attribute lines into macros (with and without an argument)."""
+    lines = text.splitlines()
+    macros = []
+    out = []
+    k = 0
+    for line in lines:
+        s = line.strip()
+        if (s.startswith("effort ") or s.startswith("priority ") or s.startswith("allocate ")) and "{" not in s and rng.random() < 0.5:
+            name = "m%d" % k
+            k += 1
+            if s.startswith("effort ") and rng.random() < 0.5:
+                macros.append("macro %s [ effort $1 ]" % name)
+                out.append(line.replace(s, "${%s %s}" % (name, s.split()[1])))
+            else:
+                macros.append("macro %s [ %s ]" % (name, s))
+                out.append(line.replace(s, "${%s}" % name))
+        else:
+            out.append(line)
+    # macro definitions go after the project header block
+    idx = next(i for i, l in enumerate(out) if l.strip() == "}")
+    return "\n".join(out[:idx + 1] + macros + out[idx + 1:]) + "\n"
